@@ -730,6 +730,19 @@ impl<T: Transport, E: UtpEnvironment> Dispatcher<T, E> {
             streams = self.streams.len(),
             syns = self.accept_queue.syns.len(),
         );
+        // A retransmitted / duplicated SYN of a connection we already know about (accepted, or
+        // waiting in the backlog) is not a new connection request.
+        if self
+            .streams
+            .contains_key(&(remote, syn.header.connection_id + 1))
+            || self.accept_queue.syns.iter().any(|s| {
+                s.remote == remote && s.header.connection_id == syn.header.connection_id
+            })
+        {
+            debug!(?remote, connection_id=?syn.header.connection_id, "duplicate SYN, ignoring");
+            return Ok(());
+        }
+
         while let Some(acceptor) = self.accept_queue.try_next_acceptor() {
             match self.match_syn_with_accept(syn, acceptor) {
                 MatchSynWithAccept::Matched => return Ok(()),
